@@ -66,11 +66,21 @@ pub fn encode(name: &str, is_table: bool) -> String {
 
 /// Determines if a name will work as CFB stream name once encoded.
 pub fn is_valid(name: &str, is_table: bool) -> bool {
-    if name.is_empty() || (!is_table && name.starts_with(TABLE_PREFIX)) {
+    if name.is_empty() || name.contains(is_unencodable) {
         false
     } else {
         encode(name, is_table).encode_utf16().count() <= 31
     }
+}
+
+/// Returns true for characters that cannot appear in a (decoded) name:
+/// characters in the ranges that `encode` itself produces (including the
+/// table prefix) would be turned into something else by `decode`, so two
+/// different names would refer to the same stream; and the CFB container
+/// does not allow the remaining ones in an entry name.
+fn is_unencodable(ch: char) -> bool {
+    (0x3800..=(TABLE_PREFIX as u32)).contains(&(ch as u32))
+        || matches!(ch, '/' | '\\' | ':' | '!')
 }
 
 // ========================================================================= //
